@@ -44,6 +44,7 @@ def run(ctx, report):
         report.violate("ANCHOR", "decode", "anchor <Enr as Decodable>::decode not found", config=cfg)
         return
     c09.decoder_guard(ctx, report)  # R1 (recorded under rule DECODE)
+    decode_public_rule(ctx, report)
     for f in decs:
         report.analysed_fns.add(f.path)
         m = DecoderModel(ctx, f)
@@ -168,6 +169,48 @@ def run(ctx, report):
                     bad.append((ev["sp"], t.callee.full if t.callee else "?"))
         report.check("FRAMING", "payload-only-via-alloy", not bad, "the payload cursor is advanced only by alloy-rlp decoders (%d sites)" % len(m.consumers),
                      "the payload is parsed by hand or escapes: %s" % bad, fn=f.path, sp=f.span, config=cfg)
+
+
+STRICT_KEY_PARSERS = {
+    "k256": ("from_sec1_bytes",),
+    "rust-secp256k1": ("from_slice",),
+    "ed25519": ("try_from", "from_bytes"),
+}
+
+
+def decode_public_rule(ctx, report):
+    """the public-key entry is valid exactly when the library's strict parser
+    accepts the *whole* byte string"""
+    from rules.c01 import ret_exprs
+    from rules.c10 import backend_name
+    cfg = ctx.config
+    fns = [f for f in ctx.facts.fns if f.kind == "AssocFn" and f.name == "decode_public" and (f.impl_trait or "").endswith("EnrKeyUnambiguous")]
+    feats = set(ctx.facts.features)
+    want = ("k256" in feats) + ("rust-secp256k1" in feats) + ("ed25519" in feats)
+    report.check("FLOOR", "decode_public-impls", len(fns) == want, "one decode_public per single-scheme back-end (%d)" % want, "expected %d decode_public impls, found %d" % (want, len(fns)), config=cfg)
+    for f in fns:
+        report.analysed_fns.add(f.path)
+        bn = backend_name(f.impl_self["s"])
+        an = ctx.an(f)
+        problems = []
+        n = 0
+        for bb, idx, e, node in ret_exprs(an):
+            es = strip(e)
+            cur = es
+            if cur.k == "call" and cur.a[0].name in ("map_err", "map") and cur.a[1]:
+                cur = strip(cur.a[1][0])
+            names = STRICT_KEY_PARSERS.get(bn, ())
+            if cur.k == "call" and cur.a[0].name in names and cur.a[1] and not cur.a[0].local:
+                arg = strip(cur.a[1][-1])
+                if arg.k == "param" and arg.a[0] == 1:
+                    n += 1
+                    continue
+                problems.append("the library parser is given %s, not the whole entry" % short(arg, 120))
+            else:
+                problems.append("returns %s" % short(e, 160))
+        report.check("PUBKEY", "decode_public/" + bn, not problems and n >= 1,
+                     "%s::decode_public is the library's strict key parser applied to the whole entry" % bn,
+                     "%s::decode_public: %s" % (bn, "; ".join(problems) or "never calls the library parser"), fn=f.path, sp=f.span, config=cfg)
 
 
 def is_payload(m, e):
